@@ -1252,9 +1252,15 @@ class FnTranslator:
                     k += 1
             return self.expr(ast.JoinedStr(values=values))
         if attr == "strftime":
+            # the model's `nowStamp` is the clock read as the 10-character stamp MMDDYYHHmm of the molfile header: pin receiver and format
+            if ast.unparse(recv) != "datetime.now()" or not (isinstance(a[0], ast.Constant) and a[0].value == "%m%d%y%H%M"):
+                raise Unsupported("strftime on another receiver or with another format than datetime.now().strftime('%m%d%y%H%M')")
             self.external_state.add("datetime.now()")
             return "env.nowStamp"
         if full == "nx.kamada_kawai_layout":
+            # the model's `layout` is the two-dimensional layout: pin the keyword
+            if not (set(kw) == {"dim"} and isinstance(kw["dim"], ast.Constant) and kw["dim"].value == 2):
+                raise Unsupported("nx.kamada_kawai_layout with other arguments than (graph, dim=2)")
             self.external_state.add("nx.kamada_kawai_layout")
             return f"(env.layout {self.e(a[0])})"
         # --- dict / list / str methods (pure)
@@ -1317,9 +1323,6 @@ class FnTranslator:
             self.pre.extend(self.assign_to(recv, f"(Dict.set {r} {self.e(a[0])} {tmp})"))
             self.setdefault_alias = (tmp, recv, a[0])
             return tmp
-        if attr == "strftime":
-            self.external_state.add("datetime.now()")
-            return "env.nowStamp"
         raise Unsupported("method " + full)
 
     def pop_expr(self, recv, a) -> str:
